@@ -563,10 +563,16 @@ class Study:
         trial_id = self._pop_waiting_trial_id()
         if trial_id is None:
             trial_id = self._storage.create_new_trial(self._study_id)
-        trial = optuna.Trial(self, trial_id)
+        try:
+            trial = optuna.Trial(self, trial_id)
 
-        for name, param in fixed_distributions.items():
-            trial._suggest(name, param)
+            for name, param in fixed_distributions.items():
+                trial._suggest(name, param)
+        except Exception:
+            # The sampler failed before the trial could be handed to the caller: nobody would
+            # ever finish it, so do not leave it in the RUNNING state.
+            self._storage.set_trial_state_values(trial_id, TrialState.FAIL)
+            raise
 
         return trial
 
